@@ -8,7 +8,7 @@ from .c04 import gen_v01, gen_v00, v00_expected
 RULE = ("files written by the Python writer (v0.2) and by the reference encoders (v0.0, v0.1 with the frame count in the 16-bit field, v0.2) over the C01/C04 space with unique component names "
         "and standard point formats (X, Y, Z, C letters), 0–3 people, several components, mixed formats, multi-byte names, every float32 class; the REAL parser.ts of the working tree is type-stripped "
         "(module.stripTypeScriptTypes) and executed under Node 22 on every file; compared: JavaScript dump vs Pose.read field by field and value by value (oracle), and vs the Lean model of parser.ts "
-        "(v0.1/v0.2; header, header length, info fields, flat arrays); version patterns at the rounding-band edges are compared with the model's Math.round classification; every float32 pattern within 150 (thorough: 4000, plus strides through the whole bands) "
+        "(v0.1/v0.2: header, header length, info fields, flat arrays; v0.0: header, header length, fps, every listed person with id and points); version patterns at the rounding-band edges are compared with the model's Math.round classification; every float32 pattern within 150 (thorough: 4000, plus strides through the whole bands) "
         "patterns of the four edges of the version bands (0.0995, 0.1005, 0.1995, 0.2005) as the version field of a v0.1- and a v0.2-bodied file through both real readers and both model classifiers (the hypothesis hcls of the theorems); non-trivial = distinct file")
 ASSUMPTIONS = ["the npm package binary-parser 2.2.1 is not installed and cannot be fetched: it is replaced by harness/js/node_modules/binary-parser (the documented behaviour of exactly the calls parser.ts makes)",
                "NaN payloads are compared as a class (a JS Number cannot carry a signalling NaN through Float32Array unchanged)",
@@ -198,6 +198,23 @@ def run(ctx):
                 ctx.sample({"layout": tag, "file_bytes": len(raw), "js_frames": j.get("frames_count"), "js_people": j.get("people")})
         # JavaScript vs its Lean model
         info = {"layout": tag, "file_bytes": len(raw), "hex": raw.hex() if len(raw) < 3000 else None}
+        if tag.startswith("v0.0") and m.get("class") == "v00":
+            # v0.0: parser.ts against its model (Model/JS.lean jsParseV00) — header, header length, fps and every listed person of every frame
+            if j["ok"] != bool(m["ok"]):
+                ctx.violation("parser.ts and its model disagree on success (v0.0)", info, {"js": j.get("error", "ok"), "model_ok": m["ok"]}, False, size=len(raw)); continue
+            if not j["ok"]:
+                continue
+            ctx.count("v0.0 model:compared")
+            jh = dict(j["header"]); hl = jh.pop("headerLength"); mh = dict(m["header"])
+            jh["version"], mh["version"] = nan_class(jh["version"]), nan_class(mh["version"])
+            fmts = [pc.unhx(c["format"]) for c in m["header"]["components"]]
+            jsf = [[{"id": (pid if pid is not None else 0) % 65536,
+                     "comps": [[[nan_class(pt[ch]) for ch in fmts[ci]] for pt in comp] for ci, comp in enumerate(person)]} for person, pid in zip(fr, ids)]
+                   for fr, ids in zip(j["frames"], j["ids"])]
+            mf = [[{"id": pr["id"], "comps": [[[nan_class(x) for x in pt] for pt in comp] for comp in pr["comps"]]} for pr in fr] for fr in m["frames"]]
+            if pc.diff(mh, jh) or hl != m["headerLength"] or j["fps"] != m["fps"] or jsf != mf:
+                ctx.violation("parser.ts and its model disagree on a v0.0 file", info, {"header": pc.diff(mh, jh), "js_frames": len(jsf), "model_frames": len(mf)}, False, size=len(raw))
+            continue
         if tag.startswith("v0.0") or m.get("class") == "v00":
             continue
         if j["ok"] != bool(m["ok"]):
